@@ -16,28 +16,28 @@ def comp(real=(), stub=(), simulated=()):
 
 P = {
     "C04": {
-        "runs": {"quick": 10000, "thorough": 400000},
+        "runs": {"quick": 20000, "thorough": 400000},
         "budget_s": {"quick": 150, "thorough": 3000},
         "rule": "one scenario = one generated dialogue (grammar-derived commands with scenario-unique tags) delivered under a seeded segmentation/pipelining/idle-gap choice, run twice in fresh simulated servers (as generated and as the one-command-per-segment lock-step baseline); distinct = distinct digest of the full step trace + event list + client transcript; non-trivial = the delivery contains at least one cut inside a command or two commands sharing a segment",
         "components": comp(real=["services ftp, smtp, redis, memcached, telnet, http, ldap, elasticsearch, eos, ethereum, docker, cwmp, ipp (TCP) and dns, tftp, snmp, memcached, counterstrike, echo, ntp (UDP through the real socket listener -> DummyUDPConn -> dispatcher): real handlers"]),
         "assumptions": ["interleavings finer than one delivered segment are not explored", "GOMAXPROCS=1 in workers (part of the design)"],
     },
     "C08": {
-        "runs": {"quick": 12000, "thorough": 600000},
+        "runs": {"quick": 24000, "thorough": 600000},
         "budget_s": {"quick": 150, "thorough": 3000},
         "rule": "one scenario = a generated port table (1-3 ports, tcp/udp, wildcard or specific address, 0-4 stub services each with or without a prefix detector) plus 1-4 interleaved clients whose first delivered segment, further segmentation, silence before the first byte and destination (configured / unconfigured port or address) are seeded; distinct = distinct trace digest; non-trivial = at least one connection reaches a port with >=2 services (ordered scan, possibly with peek)",
         "components": comp(real=["findService / compareAddr / peekConnection / timeoutConn"], stub=["stub services registered through services.Register (record invocation + bytes read)"]),
         "assumptions": ["'first bytes the client sent' = the bytes actually delivered before the peek returned (first segment, cut at 1024)", "tables are unambiguous (duplicates are C19's subject)"],
     },
     "C19": {
-        "runs": {"quick": 8000, "thorough": 60000},
+        "runs": {"quick": 16000, "thorough": 60000},
         "budget_s": {"quick": 150, "thorough": 3000},
         "rule": "one scenario = one generated configuration booted through the real Run(): either a table of 1-4 [[port]] entries using port and/or ports with strings from an alphabet of well-formed and malformed entries and service lists naming defined / undefined / wrongly-typed / duplicate services, or a parser sweep of 64 consecutive port numbers (thorough covers 0..65599 for tcp and udp); after boot every listened address and a fixed universe of other addresses is probed; distinct = distinct trace digest (listen log + probes); non-trivial = more than one entry or port string",
         "components": comp(real=["ToAddr, port table construction, compareAddr, AddAddress"], stub=["stub services"]),
         "assumptions": ["host names and literal 0.0.0.0/:: are not generated (DNS / statement silent)", "no schedule, clock or fault dimension: configuration exploration hosted by the simulator"],
     },
     "C06": {
-        "runs": {"quick": 10000, "thorough": 500000},
+        "runs": {"quick": 20000, "thorough": 500000},
         "budget_s": {"quick": 150, "thorough": 3000},
         "rule": "one scenario = a generated configuration of 1-3 capture channels and 0-4 filters (channel lists incl. unknown names and repeats, category/service regex lists or absent/empty lists) booted through the real Run(), with 1-3 interleaved sender actors putting events (category/service matching, non-matching, missing, non-string) on the bus handle services receive, optionally a real redis connection and a slow channel; run again with one channel removed; distinct = distinct trace digest; non-trivial = at least one filter configured",
         "components": comp(real=["eventbus fan-out, FilterChannel/RegexFilterFunc, TokenChannel, Run() channel/filter wiring", "redis service (event source)"], stub=["stub service that hands the bus handle to the harness"]),
@@ -52,7 +52,7 @@ P = {
         "stall_s": 120,
     },
     "C10": {
-        "runs": {"quick": 12000, "thorough": 300000},
+        "runs": {"quick": 24000, "thorough": 300000},
         "budget_s": {"quick": 150, "thorough": 3000},
         "rule": "one scenario = one rate-limited UDP service (tftp, memcached, snmp, counterstrike) receiving grammar-derived request datagrams (incl. multi-command memcached datagrams) from 1-3 source IPs over 1-3 source ports each, bursts of 1-200, fake-clock gaps between 0 and 25 minutes, optionally several datagrams released in one step; responses are the datagrams the simulated kernel carried back, timestamped on the fake clock; run again with the other sources' datagrams removed; distinct = distinct trace digest; non-trivial = more than 4 requests in the scenario",
         "components": comp(real=["services tftp, memcached, snmp, counterstrike + services.Limiter (x/time/rate on the fake clock)", "listener/socket UDP path, DummyUDPConn"]),
@@ -83,14 +83,14 @@ P = {
         "min_budget": 48,
     },
     "C03": {
-        "runs": {"quick": 6000, "thorough": 300000},
+        "runs": {"quick": 12000, "thorough": 300000},
         "budget_s": {"quick": 200, "thorough": 3300},
         "rule": "one scenario = 2-3 (history: up to 20) scripted sessions with distinct client addresses and session-unique tags on one instance of ldap/ftp/smtp/telnet/redis/memcached/http/tftp, interleaved at request/response granularity by the choice tape (thorough enumerates the tape systematically for a third of the runs) or run strictly one after the other, optionally one session reset mid-dialogue or idling while the others finish; every session is then re-run alone on a fresh server; distinct = distinct trace digest; non-trivial = at least two sessions",
         "components": comp(real=["services ldap, ftp, smtp, telnet, redis, memcached, http, tftp (one Servicer instance shared by all connections, as in production)"]),
         "assumptions": ["interleaving granularity = one command per scheduler step", "FTP transcripts are compared as line multisets (FEAT lists extensions in Go map order)"],
     },
     "C14": {
-        "runs": {"quick": 9000, "thorough": 300000},
+        "runs": {"quick": 20000, "thorough": 300000},
         "budget_s": {"quick": 200, "thorough": 3300},
         "rule": "one scenario = 1-4 scripted TCP peers (client ISN from the boundary set {0,1,2^31-1,2^31,2^32-2,2^32-1} or random, decoded and undecoded destination ports, 0-4000 payload bytes in 1-8 in-order segments of even and odd lengths with seeded PSH placement, peers with an ARP entry or reachable through the gateway, several peers sharing one address) whose frames are interleaved by the choice tape into the simulated NIC consumed by the real Start() loop; peers acknowledge what they receive; one peer is re-run alone; distinct = distinct trace digest; non-trivial = at least two peers",
         "components": comp(real=["listener/canary: New, Start() receive loop, handleTCP, send, state table, socket, tcp/ipv4/ethernet marshalling (all real)"], simulated=["epoll + AF_PACKET syscalls, /proc/net/route, /proc/net/arp, interface table (simsys)"], stub=["independent Ethernet/IPv4/TCP decoder and checksum verifier in the harness"]),
@@ -106,14 +106,14 @@ P = {
         "single_timeout": 600,
     },
     "C20": {
-        "runs": {"quick": 9000, "thorough": 300000},
+        "runs": {"quick": 20000, "thorough": 300000},
         "budget_s": {"quick": 200, "thorough": 3300},
         "rule": "one scenario = 1-4 scanning sources each sending one or two bursts of 1-150 probes (TCP SYN, UDP to ports without decoder, ICMP echo; single- and mixed-protocol; ports drawn with repetition from a small set; gaps of 0/10 ms/1 s/4 s inside a burst, 75-200 s between bursts) as frames into the simulated NIC, interleaved by the choice tape, then ten simulated minutes of observation on the fake clock; distinct = distinct trace digest; non-trivial = at least two sources",
         "components": comp(real=["listener/canary: Start() loop, handleTCP/UDP/ICMP knock queueing, knockDetector with its 5 s timer, UniqueSet (all real)"], simulated=["epoll + AF_PACKET syscalls, /proc tables (simsys)", "fake clock"]),
         "assumptions": ["for mixed-protocol bursts one event or one per protocol family are both accepted", "set semantics of the grouping container are exercised through the detector, not enumerated separately"],
     },
     "C12": {
-        "runs": {"quick": 6000, "thorough": 150000},
+        "runs": {"quick": 12000, "thorough": 150000},
         "budget_s": {"quick": 200, "thorough": 3300},
         "rule": "one scenario = one of ssh-simulator / ldap / ftp with a generated credential set (0-3 user:password pairs over {root,admin,guest,''} x {root,admin,123456,''}, optionally the wildcard and entries without separator; ftp has its fixed table) and 1-2 connections to the same service instance, each with 1-4 authentication attempts (ssh: real x/crypto/ssh client inside the bubble retrying passwords; ldap: simple binds with several DN spellings; ftp: USER/PASS) and a gated-operation probe before and after every attempt, interleaved by the choice tape; distinct = distinct trace digest; non-trivial = two connections",
         "components": comp(real=["services ssh-simulator (real x/crypto/ssh server handshake), ldap, ftp"], stub=["x/crypto/ssh client library as the peer, running inside the bubble over simnet"]),
@@ -131,14 +131,14 @@ P = {
         "min_budget": 40,
     },
     "C11": {
-        "runs": {"quick": 8000, "thorough": 300000},
+        "runs": {"quick": 10000, "thorough": 300000},
         "budget_s": {"quick": 200, "thorough": 3300},
         "rule": "one scenario = 1-3 logged-in sessions on one ftp service instance, interleaved by the choice tape, each issuing 1-12 of CWD/CDUP/PWD/MKD/RMD/DELE/RNFR+RNTO/STOR/APPE/RETR/LIST/NLST/MDTM/SIZE/STAT (and X-variants) with path arguments built from {a, b, .., ., '', SENTINEL, secret.txt} (1-5 components, absolute/relative, trailing separator) or from a list of odd paths; transfers open passive data connections over the simulated transport, some reset mid-transfer; a sentinel tree with unique contents is planted beside the service root on the real temp filesystem; distinct = distinct trace digest; non-trivial = always (every session changes directories or touches paths)",
         "components": comp(real=["services/ftp (commands, passive sockets over simnet, TLS on the data connection), services/filesystem Htfs RealPath/ChangeDir on a real temp dir"], stub=["crypto/tls client on the data connection, inside the bubble"]),
         "assumptions": ["the root contains no symlinks leaving it (none are planted)", "path mapping is sequential logic; the simulator contributes interleaved sessions and transfer faults"],
     },
     "C05": {
-        "runs": {"quick": 8000, "thorough": 400000},
+        "runs": {"quick": 12000, "thorough": 400000},
         "budget_s": {"quick": 200, "thorough": 3300},
         "rule": "one scenario = one simulated run of one of four workloads - a segmented protocol dialogue (C04's generator, all protocols), hostile inputs to 1-3 services (C01's generator), a payload sweep of 16 connections/datagrams through echo, counterstrike or memcached (payloads cycle through all 256 single bytes, 2-byte strings, invalid UTF-8/NUL/control bytes, up to 64 KiB), or 12 UDP datagrams with such payloads through the raw listener's generic UDP handler - every event of which is checked against the invariants; distinct = distinct trace digest; non-trivial = more than one event",
         "components": comp(real=["event package (Payload, SourceAddr/DestinationAddr, MarshalJSON), all services and the raw listener as event producers"], simulated=["simsys for the raw-listener workload"]),
@@ -159,14 +159,14 @@ P = {
         "min_budget": 30,
     },
     "C16": {
-        "runs": {"quick": 10000, "thorough": 300000},
+        "runs": {"quick": 20000, "thorough": 300000},
         "budget_s": {"quick": 200, "thorough": 3300},
         "rule": "one scenario = one agent session (real libdisco Noise_NK client and server over a simulated stream) multiplexing 1-4 virtual connections (hello, 0-20 data messages of 0-65000 bytes with self-describing payloads, eof; IPv4 and IPv6 remote addresses, ports 1-65535) plus pings, UDP relay messages and data for unknown connections, interleaved message by message by the choice tape; every message is framed as three transport writes, as one, or with its body split in two; a quarter of the runs drop the agent after n messages; services behind are recording stubs in echo mode; distinct = distinct trace digest; non-trivial = at least two virtual connections",
         "components": comp(real=["listener/agent: serv loop, conn2 framing, messages codec, agentConnection, Connections; libdisco server and client (real handshake and encryption)"], stub=["stub echo service", "scripted agent built on the package's own message types"], simulated=["the TCP stream between agent and listener"]),
         "assumptions": ["the codec's round trip is exercised by the traffic that crosses the tunnel in both directions, not enumerated separately"],
     },
     "C15": {
-        "runs": {"quick": 4000, "thorough": 300000},
+        "runs": {"quick": 6000, "thorough": 300000},
         "budget_s": {"quick": 200, "thorough": 3300},
         "rule": "one scenario = http-proxy, copy (tcp or udp) or dns-proxy configured with the real forward director (host with or without port) and 1-3 clients each performing 1-4 exchanges: HTTP requests (7 methods, repeated header names, bodies up to 64 KiB, content-length or chunked, lock-step or pipelined, seeded segmentation) answered by a scripted backend inside the bubble with seeded segmentation of the reply; raw streams answered by a byte-transforming backend; datagrams / DNS queries answered by a UDP backend; a decoy backend on another address; optionally the backend refuses the connection or closes mid-reply; distinct = distinct trace digest; non-trivial = several clients or a segmented/pipelined request",
         "components": comp(real=["services http-proxy, copy, dns-proxy, ssh-proxy; director/forward (dial through the simulated kernel)"], stub=["scripted HTTP / raw / UDP backends and a decoy inside the bubble", "ssh mode (every sixth scenario): x/crypto/ssh server as backend and x/crypto/ssh clients as attackers, inside the bubble"]),
